@@ -398,6 +398,8 @@ QNAME_VALUES = [
     "a", "{urn:u}a", "{urn:default}a", "{urn:empty}x", "{urn:new}a", "{urn:a}b", "{urn:b}b", "{urn:c}b", "{http://www.w3.org/2001/XMLSchema}int",
     "{http://www.w3.org/2001/XMLSchema-instance}type", "{http://www.w3.org/XML/1998/namespace}lang", "{http://www.w3.org/1999/xlink}href",
     "{urn:a-b}c", "{}a", "{urn:a}", "{urn:a", "a:b", "", "{urn:notxs}q", "{urn:zz}q", "x y", "कि", "{urn:u}कि",
+    "{urn:a,b}c", "{urn:x#frag}a", "{http://www.w3.org/2000/09/xmldsig#}Signature", "{urn:x#}a", "{#f}a", "{urn:uuid:6e8bc430-9c3a-11d9-9669-0800200c9a66}a",
+    "{http://a.b/c;d?e=f&g=h+i$j_k!l~m*n'o(p)%20}q",
 ]
 B64_HAND = [
     "", "QQ==", "QR==", "QQ=", "QQ", "Q", "QQ==QQ==", "=QQ=", "QQ= =", "Q Q = =", "QUJD", "QUJDRA==", "QUJDR===", "QUJD====", "====", "QQ=Q", "Q=Q=",
@@ -909,6 +911,14 @@ def gen_is_uri(rng, tier):
         yield {"s": chr(cp)}
         yield {"s": "a" + chr(cp) + "b"}
         yield {"s": "a#" + chr(cp)}
+        yield {"s": "a" + chr(cp) + ":b"}  # would-be scheme character
+    for s in exhaustive("a-,#:\\", 4):
+        yield {"s": s}
+    for s in ["http://www.w3.org/2000/09/xmldsig#", "http://www.w3.org/1999/02/22-rdf-syntax-ns#", "a-b:c", "a+b-c.d:e", "-a:b", "a,b#c,d", "a#b,c-d", "a\\b", "a^b#c", "a#b^c", "a#b]c", "a#b\\c"]:
+        yield {"s": s}
+    for _ in range(300 if tier == "quick" else 5000):
+        n = rng.randint(1, 6)
+        yield {"s": "".join(rng.choice(["a", "Z", "0", "-", ",", ".", "/", ":", "#", "%", "~", "\\", "^", "]", "_", " ", "\n", chr(rng.randint(0x80, 0x2FFF)), chr(rng.randint(0, 0x10FFFF))]) for _ in range(n)).encode("utf-8", "surrogatepass").decode("utf-8", "replace")}
 
 
 def gen_text_split(rng, tier):
@@ -1384,6 +1394,21 @@ def oracle_registry(a):
     return None
 
 
+def oracle_is_uri(a):
+    """is_uri accepts every (ASCII) RFC 2396 URI reference; a namespace name is one"""
+    s = a.get("s")
+    if not isinstance(s, str):
+        return None
+    if _is_uri_ref(s) and not NS.is_uri(s):
+        return f"is_uri({s!r}) is False for a URI reference"
+    return None
+
+
+def covered_is_uri(a, msg):
+    s = a.get("s") or ""
+    return "C05-uri-empty-fragment" if _is_empty_fragment_uri(s) else None
+
+
 def oracle_helpers(a):
     """build_qname / split_qname are inverse on well-formed parts; is_ncname agrees with XML NCName"""
     s = a.get("s")
@@ -1420,6 +1445,19 @@ def _is_marked_name(local):
     return not approx
 
 
+_RFC = r"[A-Za-z0-9;/?:@&=+$,\-_.!~*'()%]"
+
+
+def _is_uri_ref(u):
+    """non-empty RFC 2396 URI reference (ASCII): URI characters, at most one '#'"""
+    return bool(u) and re.fullmatch(f"{_RFC}*(?:#{_RFC}*)?", u) is not None
+
+
+def _is_empty_fragment_uri(u):
+    """URI reference that ends in '#' (empty fragment), e.g. http://www.w3.org/2000/09/xmldsig#"""
+    return _is_uri_ref(u) and u.endswith("#")
+
+
 def covered_roundtrip(a, msg):
     v = a["v"]
     kw = a["kw"]
@@ -1432,8 +1470,8 @@ def covered_roundtrip(a, msg):
         ns, local = qname_parts(inner["v"])
         if _is_marked_name(local):
             return "C05-ncname-unicode"
-        if kw.get("ns_map") is None and ns is not None and "-" in ns and re.fullmatch(r"[A-Za-z0-9;/?:@&=+$.\-_!~*'()%]+", ns):
-            return "C05-uri-hyphen"
+        if kw.get("ns_map") is None and ns is not None and _is_empty_fragment_uri(ns):
+            return "C05-uri-empty-fragment"
         if kw.get("ns_map") is not None:
             m = kw["ns_map"]
             if ns is None and _has_default_ns(kw):
@@ -1524,6 +1562,7 @@ ORACLES = [
     Oracle("c05.sort", gen_sort, oracle_sort, from_ops=("conv.sort",)),
     Oracle("c05.from_value", gen_from_value, oracle_from_value, from_ops=("conv.from_value",)),
     Oracle("c05.registry", gen_type_converter, oracle_registry, from_ops=("conv.type_converter",)),
+    Oracle("c05.is_uri", gen_is_uri, oracle_is_uri, covered=covered_is_uri, from_ops=("ns.is_uri",)),
     Oracle("c05.helpers", gen_o_helpers, oracle_helpers, covered=covered_helpers, from_ops=("ns.is_ncname", "ns.split_qname")),
 ]
 
@@ -1538,13 +1577,13 @@ def f_default_ns():
     return back.text != "y", f"QName('y') -> {s!r} -> {back.text!r} under ns_map {{None: 'urn:x'}}"
 
 
-def f_uri_hyphen():
-    q = QName("{http://www.w3.org/2001/XMLSchema-instance}type")
+def f_uri_empty_fragment():
+    q = QName("{http://www.w3.org/2000/09/xmldsig#}Signature")
     s = converter.serialize(q)
     try:
         back = converter.deserialize(s, [QName])
     except ConverterError:
-        return True, f"serialize -> {s!r}; deserialize raises ConverterError (is_uri rejects '-')"
+        return True, f"serialize -> {s!r}; deserialize raises ConverterError (is_uri wants a character after '#')"
     return back.text != q.text, f"{s!r} -> {back.text!r}"
 
 
@@ -1589,7 +1628,7 @@ def f_snan_leak():
 FINDINGS = {
     "C05-enum-snan-leak": f_snan_leak,
     "C05-qname-default-ns": f_default_ns,
-    "C05-uri-hyphen": f_uri_hyphen,
+    "C05-uri-empty-fragment": f_uri_empty_fragment,
     "C05-ncname-unicode": f_ncname_marks,
     "C05-enum-tuple-serialize": f_enum_tuple,
     "C05-enum-str-whitespace": f_enum_ws,
